@@ -541,7 +541,10 @@ def cases(draw):
 
 def plan(tier, seed):
   n = 250 if tier == 'quick' else 5000
-  return [{'kind': 'hyp', 'name': 'hyp%d' % i, 'hseed': seed * 1000 + i, 'n': n} for i in range(16)]
+  jobs = [{'kind': 'hyp', 'name': 'hyp%d' % i, 'hseed': seed * 1000 + i, 'n': n} for i in range(16)]
+  # the log-record cache with two or three threads of one run logging at once (engine: C19's scheduled shared-record case)
+  jobs += [{'kind': 'sharedlog', 'name': 'sharedlog.%d.%d' % (nt, k), 'threads': nt, 'msgs': k} for nt, k in ((2, 1), (2, 2), (3, 1))]
+  return jobs
 
 
 def run_job(job, acct):
@@ -550,8 +553,25 @@ def run_job(job, acct):
     from vf import runner  # pylint: disable=g-import-not-at-top
     runner.run_regress(sys.modules[__name__], job, acct)
     return
+  if job['kind'] == 'sharedlog':
+    from vf.props import c19  # pylint: disable=g-import-not-at-top
+    base = {'sharedrec': job['threads'], 'msgs': job['msgs'], 'plan': {}}
+    r0, s0 = c19.check_shared_record(base)
+    cases_ = [base] + [dict(base, plan={str(k): c}) for k in range(s0.k + 2) for c in range(job['threads'] + 1)]
+    for case in cases_:
+      r, _ = c19.check_shared_record(case)
+      acct.case({'sharedlog': case}, r.nontrivial, ['shared-log-cache'] + r.classes[1:])
+      for sig, detail in r.violations:
+        if sig == 'C19/shared-record/view-differs-from-record':
+          (acct.known if 'C10/logs/cached-view-differs-from-record' in known else acct.violation)('C10/logs/cached-view-differs-from-record', {'sharedlog': case}, detail)
+    acct.exhaustive_parts.append('%d threads of one run logging %d message(s): every single preemption' % (job['threads'], job['msgs']))
+    return
   hyp.search(acct, cases(), check, seed=job['hseed'], max_examples=job['n'], known=known)
 
 
 def replay(case):
+  if 'sharedlog' in case:
+    from vf.props import c19  # pylint: disable=g-import-not-at-top
+    return [('C10/logs/cached-view-differs-from-record', d) for sg, d in c19.check_shared_record(case['sharedlog'])[0].violations
+            if sg == 'C19/shared-record/view-differs-from-record']
   return check(case).violations
